@@ -404,7 +404,7 @@ func (run *c29Run) maybeStop() {
 // internal/infra/cluster adapters).
 var c29PortsHook func(*c29Model) (ca.Appender, ca.IdempotencyStore)
 
-func TestVerifC29(t *testing.T) { c29Main(t, "main", 90, 900) }
+func TestVerifC29(t *testing.T) { c29Main(t, "main", 90, 1300) }
 
 func c29Main(t *testing.T, unit string, quick, thorough int) {
 	r := verifkit.Start(t, "C29", unit)
